@@ -29,6 +29,7 @@ PROBES = [
     'x\n|a|\n|-|\n',                           # Table.interrupt_paragraph
     '> q\n> ===\n\n- i\n\n  j\n',              # containers
     '[l]: /u "t"\n\n[l] *e* **s** ~~d~~\n',    # token._root_node / footnotes
+    'p\n<div>\nq\n\n- i\n<!-- c -->\n\n> r\n<?php ?>\n',   # which token types may interrupt a paragraph / item / quote
 ]
 NOCODE = [p for p in PROBES if '```' not in p]
 
@@ -154,7 +155,7 @@ def g1_scratch(level: int, c1: int, c2: int, c3: int, oi0: int, endnone: bool) -
             'after the context exits both token lists equal the defaults and Inv holds')
 def g2_restoration(ri: int, di: int, extra: bool, raise_inside: bool) -> bool:
     """
-    pre: ri == P('ri') and 0 <= di < 9
+    pre: ri == P('ri') and 0 <= di < 10
     post: _
     """
     from mistletoe import Document, span_token
